@@ -39,6 +39,7 @@ func checkC17(c *Ctx) {
 	c.Expect("C17.4", 3)
 	c.Expect("C17.5", 3)
 	c17Height(c)
+	c17KauriUsesChildList(c)
 
 	// C17.1 immutability
 	for _, f := range []string{"id", "height", "branchFactor", "treePosToID"} {
@@ -555,4 +556,108 @@ func c17Height(c *Ctx) {
 	})
 	c.Check(okStore && nStore == 1, "C17.5", "NewSimple: height = treeHeight(len(positions), branchFactor)", p.FuncPos(ns),
 		"the stored height is the level count of the configured size and branch factor", "Tree.height is not treeHeight(len(treePositionIDs), branchFactor)")
+}
+
+
+// c17KauriUsesChildList (C17.6): Kauri decides between "push the proposal to my children and wait
+// for their votes" and "I have nobody below me: send my vote up" by the list of children the tree
+// gives it. That list is the relation the rest of C17 is about (a replica is a child of exactly
+// its parent); any other test of leaf-ness (height, position, level arithmetic) agrees with it
+// only on complete trees: with an incomplete last level a childless replica above the bottom level
+// would wait for votes that never come or ask for an empty sub-configuration, and its own vote
+// would have no path up. Rule: a sub-configuration is requested for the tree's child list only where
+// that list is known to be non-empty, and the vote is sent to the parent without waiting only where
+// it is known to be empty (the test itself, or a predicate of the module all of whose true outcomes
+// establish it).
+func c17KauriUsesChildList(c *Ctx) {
+	p := c.P
+	begin := p.Method("protocol/comm", "Kauri", "begin")
+	if begin == nil {
+		c.Unresolved("C17.6", "Kauri.begin", "anchor missing")
+		return
+	}
+	isChildren := func(k string) bool {
+		return strings.Contains(k, "hs/internal/tree.Tree).ReplicaChildren(") || strings.Contains(k, "hs/internal/tree.Tree).ChildrenOf(")
+	}
+	isLen := func(k string) bool { return strings.HasPrefix(k, "builtin len(") && isChildren(k) }
+	// predicate helpers: key prefix -> function
+	predicate := func(k string) *ssa.Function {
+		for _, fn := range p.ModFuncs {
+			if fn.Parent() == nil && fn.Blocks != nil && strings.HasPrefix(k, shortName(fn)+"(") {
+				return fn
+			}
+		}
+		return nil
+	}
+	emptyIn := func(fs FactSet) bool {
+		return hasCmp(fs, "==", is("c:0"), isLen) || hasCmp(fs, "<=", isLen, is("c:0"))
+	}
+	nonEmptyIn := func(fs FactSet) bool {
+		return hasCmp(fs, "!=", is("c:0"), isLen) || hasCmp(fs, "<", is("c:0"), isLen)
+	}
+	known := func(fs FactSet, wantEmpty bool) bool {
+		if wantEmpty && emptyIn(fs) || !wantEmpty && nonEmptyIn(fs) {
+			return true
+		}
+		for f := range fs {
+			if f.Op != "true" && f.Op != "false" {
+				continue
+			}
+			fn := predicate(f.L)
+			if fn == nil || fn.Signature.Results().Len() != 1 {
+				continue
+			}
+			pfl := NewFlow(p, fn)
+			// the outcomes of the predicate that agree with the fact
+			var ways []FactSet
+			if f.Op == "true" {
+				ways = trueEdges(pfl)
+			} else {
+				for _, r := range returnsOf(fn) {
+					if !pfl.Reachable(r.Block()) || isBoolConst(retValue(r, 0), true) {
+						continue
+					}
+					w := pfl.At(r).clone()
+					if !isBoolConst(retValue(r, 0), false) {
+						var extra []Fact
+						pfl.decompose(retValue(r, 0), false, &extra)
+						for _, e := range extra {
+							w[e] = true
+						}
+					}
+					ways = append(ways, w)
+				}
+			}
+			all := len(ways) > 0
+			for _, w := range ways {
+				if wantEmpty && !emptyIn(w) || !wantEmpty && !nonEmptyIn(w) {
+					all = false
+				}
+			}
+			if all {
+				return true
+			}
+		}
+		return false
+	}
+	fl := NewFlow(p, begin)
+	nSub, nUp := 0, 0
+	for _, ds := range deepSites(fl, func(cc *ssa.CallCommon) bool { return cc.IsInvoke() && cc.Method.Name() == "Sub" }, 0) {
+		if len(ds.Args) == 0 || !isChildren(ds.Args[0]) {
+			continue
+		}
+		nSub++
+		c.Check(known(ds.Facts, false), "C17.6", "Kauri: the proposal is pushed down only to a non-empty child list", p.Pos(ds.Site.Pos()),
+			"sender.Sub(children) is reached only where the tree's child list is known to be non-empty",
+			"a sub-configuration is requested for the child list without knowing that it is non-empty (leaf-ness decided by something other than the child list): a childless replica above an incomplete last level fails here and its vote never travels up")
+	}
+	for _, ds := range deepSites(fl, func(cc *ssa.CallCommon) bool { return cc.IsInvoke() && cc.Method.Name() == "SendContributionToParent" }, 0) {
+		nUp++
+		c.Check(known(ds.Facts, true), "C17.6", "Kauri: the vote goes up without waiting only when the child list is empty", p.Pos(ds.Site.Pos()),
+			"begin sends the contribution to the parent at once only where the tree's child list is known to be empty",
+			"the vote is sent up without waiting for children although the child list is not known to be empty")
+	}
+	if nSub == 0 || nUp == 0 {
+		c.Unresolved("C17.6", "Kauri.begin", "expected a Sub(children) call and an immediate SendContributionToParent below begin; found "+itoa(nSub)+" and "+itoa(nUp))
+	}
 }
